@@ -1,8 +1,190 @@
 (** C11 — edge reification and dereification are mutually inverse.
-    ONLY statements here; proofs live in Proofs/Transform_lemmas.v. *)
-From PM Require Import Spec.WfGraph Proofs.Transform_lemmas.
+    ONLY statements here; proofs live in Proofs/Transform_lemmas.v.
 
-Theorem C11_reify_keeps_top : forall m g g',
-  reify_edges m g = Ok g' -> graph_top g' = graph_top g.
-Proof. exact reify_edges_top. Qed.
-Print Assumptions C11_reify_keeps_top.
+    Vocabulary (Spec/WfGraph.v):
+    [wf_graph g]       sources are str, roles carry their colon, every variable
+                       owns exactly one instance triple, triples pairwise distinct;
+    [epi_ok g]         the epidata dict has distinct keys, every key's source is a
+                       variable of g and every Push names a variable of g (true of
+                       every decoded graph and of every graph without epidata);
+    [no_collapsible m g]  the dereification agenda of g is empty;
+    [table_ok_for m g] for every triple with a reifiable role r, first row (c, sr, tr):
+                       r, sr, tr are not :instance, sr and tr carry their colon, sr <> tr,
+                       sr and tr are not reifiable, and Model.dereify gives r back in the
+                       orientation in which reify_edges wrote the triple (inverted-order
+                       clause only for the triples it swaps).  [table_ok m (roles_used g)]
+                       (both orientations for every role) implies it.
+    After the F4 repair the live AMR table satisfies the written-order clause for
+    EVERY role and fails the inverted-order clause exactly for :subset / :superset
+    (Example [C11_amr_table] below, recomputed from Gen/AmrTable.v on every build). *)
+From PM Require Import Spec.WfGraph Proofs.Transform_lemmas Gen.AmrTable.
+
+Definition reifiable_role (m : model) (t : triple) : bool := is_role_reifiable m (trole t).
+
+(* ---- reify_edges ------------------------------------------------------------ *)
+
+(* no triple of the result has a reifiable role *)
+Theorem C11_reify_no_reifiable : forall m g g', node_graph g ->
+  (forall t, In t (triples g) -> row_shape_ok m (trole t) = true) ->
+  reify_edges m g = Ok g' ->
+  forall t', In t' (triples g') -> is_role_reifiable m (trole t') = false.
+Proof. exact reify_no_reifiable. Qed.
+Print Assumptions C11_reify_no_reifiable.
+
+(* the result is the input with every reifiable triple replaced by its three
+   triples ([rtriples], colon added), one NEW variable per reified triple: the
+   variables are pairwise distinct, spelled _ or _<k>, and are neither variables
+   nor targets (constants, concepts) of g.  Fuel of the search is sufficient:
+   [reify_edges] is total (C12_reify_edges_total). *)
+Theorem C11_reify_fresh : forall m g g', reify_edges m g = Ok g' ->
+  exists vs, triples g' = map colonize (rtriples m g (triples g) vs) /\
+    length vs = count_reif m (triples g) /\ NoDup vs /\
+    forall v, In v vs -> gen_name v /\ is_var g (AStr v) = false /\
+                          mem atom_eqb (AStr v) (map ttgt (triples g)) = false.
+Proof. exact reify_fresh. Qed.
+Print Assumptions C11_reify_fresh.
+
+(* decimal rendering is injective, so _2, _3, ... are pairwise distinct names *)
+Theorem C11_fresh_names_distinct : forall a b, fname a = fname b -> a = b.
+Proof. exact fname_inj. Qed.
+Print Assumptions C11_fresh_names_distinct.
+
+(* the non-reified triples are kept in order (they are exactly the triples of the
+   result whose source is an old variable), with their epidata entries; metadata
+   and top are kept *)
+Theorem C11_reify_keeps_rest : forall m g g', node_graph g -> reify_edges m g = Ok g' ->
+  filter (fun t => is_var g (tsrc t)) (triples g') =
+    filter (fun t => negb (is_role_reifiable m (trole t))) (triples g) /\
+  (forall t, In t (triples g) -> is_role_reifiable m (trole t) = false ->
+     dget triple_eqb t (epidata g') = dget triple_eqb t (epidata g)) /\
+  gmeta g' = gmeta g /\ graph_top g' = graph_top g.
+Proof. exact reify_keeps_rest. Qed.
+Print Assumptions C11_reify_keeps_rest.
+
+(* ---- the inverse -------------------------------------------------------------- *)
+
+(* WHOLE structures: the triple list (with order), the top, the metadata, and the
+   epidata as a function triple -> marker list.  The marker list of a reified
+   triple comes back in canonical order ([canon_epis]: last role alignment,
+   target alignments, last Push, POPs); the dict may list its keys in another
+   order (the reified triples' keys move to the end) and gains an entry [] for a
+   reified triple that had none: neither is observed by [epis_of], i.e. by
+   configure / encode, which only ever call epidata.get(t, []). *)
+Theorem C11_inverse : forall m g g1 g2,
+  wf_graph g -> epi_ok g -> no_collapsible m g -> table_ok_for m g = true ->
+  reify_edges m g = Ok g1 -> dereify_edges m g1 = Ok g2 ->
+  triples g2 = triples g /\ gtop g2 = graph_top g /\ gmeta g2 = gmeta g /\
+  forall k, epis_of g2 k = if reified_key m g k then canon_epis (epis_of g k) else epis_of g k.
+Proof. exact inverse_thm. Qed.
+Print Assumptions C11_inverse.
+
+(* with markers in the order interpret writes them, the epidata is the same function *)
+Theorem C11_inverse_canonical : forall m g g1 g2,
+  wf_graph g -> epi_ok g -> no_collapsible m g -> table_ok_for m g = true ->
+  (forall t, In t (triples g) -> is_role_reifiable m (trole t) = true ->
+     canon_epis (epis_of g t) = epis_of g t) ->
+  reify_edges m g = Ok g1 -> dereify_edges m g1 = Ok g2 ->
+  triples g2 = triples g /\ graph_top g2 = graph_top g /\ gmeta g2 = gmeta g /\
+  forall k, epis_of g2 k = epis_of g k.
+Proof. exact inverse_canonical. Qed.
+Print Assumptions C11_inverse_canonical.
+
+(* neither transformation can fail, so the round trip always exists *)
+Theorem C11_inverse_exists : forall m g,
+  wf_graph g -> epi_ok g -> no_collapsible m g -> table_ok_for m g = true ->
+  exists g1 g2, reify_edges m g = Ok g1 /\ dereify_edges m g1 = Ok g2 /\
+    triples g2 = triples g /\ graph_top g2 = graph_top g /\ gmeta g2 = gmeta g.
+Proof. exact inverse_exists. Qed.
+Print Assumptions C11_inverse_exists.
+
+Theorem C11_table_ok_sufficient : forall m g, table_ok m (roles_used g) -> table_ok_for m g = true.
+Proof. exact table_ok_sufficient. Qed.
+Print Assumptions C11_table_ok_sufficient.
+
+(* ---- dereify_edges never collapses the wrong node ------------------------------- *)
+
+(* a node that is the top, or the target of some non-instance triple, or has a
+   number of non-instance relations different from two is not in the agenda ... *)
+Theorem C11_dereify_never_collapses : forall m g (ag : dict atom agenda_entry) v,
+  dereify_agenda m g = Ok ag ->
+  (atom_eqb v (top_atom g) = true \/
+   mem atom_eqb v (map ttgt (filter (fun t => negb (is_inst t)) (triples g))) = true \/
+   length (others_of (triples g) v) <> 2) ->
+  dget atom_eqb v ag = None.
+Proof. exact dereify_never_collapses. Qed.
+Print Assumptions C11_dereify_never_collapses.
+
+(* ... and every triple whose source is not in the agenda is kept *)
+Theorem C11_dereify_keeps_others : forall m g g' (ag : dict atom agenda_entry) t,
+  dereify_agenda m g = Ok ag -> dereify_edges m g = Ok g' ->
+  In t (triples g) -> dget atom_eqb (tsrc t) ag = None -> In (colonize t) (triples g').
+Proof. exact dereify_keeps. Qed.
+Print Assumptions C11_dereify_keeps_others.
+
+(* ---- the live AMR table --------------------------------------------------------- *)
+Definition amr : model := model_of_table amr_table.
+Definition amr_reif_roles : list str := dedup str_eqb (map (fun '(r, _, _, _) => r) (reifs amr)).
+Definition R_SUBSET : str := [58;115;117;98;115;101;116]%N.             (* :subset *)
+Definition R_SUPERSET : str := [58;115;117;112;101;114;115;101;116]%N.  (* :superset *)
+
+Example C11_amr_table :
+  forallb (fun r => row_shape_ok amr r && row_plain_ok amr r) amr_reif_roles = true /\
+  filter (fun r => negb (row_inv_ok amr r)) amr_reif_roles = [R_SUBSET; R_SUPERSET] /\
+  filter (fun r => negb (table_ok_role amr r)) amr_reif_roles = [R_SUBSET; R_SUPERSET].
+Proof. vm_compute. auto. Qed.
+
+(* (a / x :mod~1 (b / y~2) :location-of (c / z :ARG0 a) :quant 7), as decoded:
+   an aligned edge, an inverted edge, an attribute; three triples get reified *)
+Definition c11_ex : graph :=
+  mkGraph
+    [(AStr [97], [58;105;110;115;116;97;110;99;101], AStr [120]);
+     (AStr [97], [58;109;111;100], AStr [98]);
+     (AStr [98], [58;105;110;115;116;97;110;99;101], AStr [121]);
+     (AStr [99], [58;108;111;99;97;116;105;111;110], AStr [97]);
+     (AStr [99], [58;105;110;115;116;97;110;99;101], AStr [122]);
+     (AStr [99], [58;65;82;71;48], AStr [97]);
+     (AStr [97], [58;113;117;97;110;116], AStr [55])]%N
+    (Some (AStr [97]))%N
+    [((AStr [97], [58;105;110;115;116;97;110;99;101], AStr [120]), []);
+     ((AStr [97], [58;109;111;100], AStr [98]), [RAln [1] (None); Push (AStr [98])]);
+     ((AStr [98], [58;105;110;115;116;97;110;99;101], AStr [121]), [Aln [2] (None); Pop]);
+     ((AStr [99], [58;108;111;99;97;116;105;111;110], AStr [97]), [Push (AStr [99])]);
+     ((AStr [99], [58;105;110;115;116;97;110;99;101], AStr [122]), []);
+     ((AStr [99], [58;65;82;71;48], AStr [97]), [Pop]);
+     ((AStr [97], [58;113;117;97;110;116], AStr [55]), [])]%N
+    [].
+
+Example C11_hypotheses_satisfiable :
+  wf_graph c11_ex /\ epi_ok c11_ex /\ no_collapsible amr c11_ex /\ table_ok_for amr c11_ex = true /\
+  count_reif amr (triples c11_ex) = 3 /\
+  forallb (fun t => negb (reifiable_role amr t) || epis_canonical_b (epis_of c11_ex t)) (triples c11_ex) = true /\
+  exists g1 g2, reify_edges amr c11_ex = Ok g1 /\ dereify_edges amr g1 = Ok g2 /\
+                length (triples g1) = 13 /\ triples g2 = triples c11_ex /\ epidata g2 <> epidata c11_ex.
+Proof.
+  vm_compute. repeat split; try reflexivity. eexists. eexists.
+  split; [reflexivity|]. split; [reflexivity|]. split; [reflexivity|]. split; [reflexivity|]. discriminate.
+Qed.
+
+(* the hypothesis on the table is needed: (b / x :subset-of (a / y)) is wf, has no
+   collapsible node, but comes back as (b / x :superset (a / y)) (N4: the AMR table
+   is ambiguous for include-91 in the inverted order) *)
+Definition c11_ex_subset : graph :=
+  mkGraph
+    [(AStr [98], [58;105;110;115;116;97;110;99;101], AStr [120]);
+     (AStr [97], [58;115;117;98;115;101;116], AStr [98]);
+     (AStr [97], [58;105;110;115;116;97;110;99;101], AStr [121])]%N
+    (Some (AStr [98]))%N
+    [((AStr [98], [58;105;110;115;116;97;110;99;101], AStr [120]), []);
+     ((AStr [97], [58;115;117;98;115;101;116], AStr [98]), [Push (AStr [97])]);
+     ((AStr [97], [58;105;110;115;116;97;110;99;101], AStr [121]), [Pop])]%N
+    [].
+Example C11_inverse_needs_table_ok :
+  wf_graph c11_ex_subset /\ epi_ok c11_ex_subset /\ no_collapsible amr c11_ex_subset /\
+  table_ok_for amr c11_ex_subset = false /\
+  exists g1 g2, reify_edges amr c11_ex_subset = Ok g1 /\ dereify_edges amr g1 = Ok g2 /\
+    triples g2 = [(AStr [98], INSTANCE, AStr [120]); (AStr [98], R_SUPERSET, AStr [97]);
+                  (AStr [97], INSTANCE, AStr [121])]%N.
+Proof.
+  vm_compute. repeat split; try reflexivity. eexists. eexists.
+  split; [reflexivity|]. split; reflexivity.
+Qed.
